@@ -922,10 +922,101 @@ func init() {
 				}
 			}
 		}
+		// whatever a suffix makes of a listed id (valid or not), it makes the same of every case variant of that id —
+		// validity and, where valid, the '+' reach
+		for _, id := range append(append([]string{}, tblActive...), tblDeprecated...) {
+			if strings.HasSuffix(id, "+") {
+				continue
+			}
+			vs := []string{strings.ToLower(id), strings.ToUpper(id), caseMut(id, 2)}
+			fam := sameFamilyIDs(id)
+			for _, suf := range []string{"-or-later", "-only", "+", "-or-later+", "-only+", "++"} {
+				e0 := id + suf
+				v0 := implValid(e0)
+				for _, v := range vs {
+					e1 := v + suf
+					res.Evaluations++
+					count("suffix_case_validity")
+					k := &kase{Expr: e1, ExprHex: hx(e1), Extra: map[string]string{"list_spelling": e0}}
+					if v1 := implValid(e1); v1 != v0 {
+						fail(failure{Stream: "oracle", What: "a suffixed listed id and its case variant are not equally valid: " + show(e0) + " is " + map[bool]string{true: "valid", false: "invalid"}[v0], Case: k, Impl: fmt.Sprint(v1), Expected: fmt.Sprint(v0)})
+						break
+					}
+					if v0 && len(fam) > 0 {
+						q := pick(fam)
+						if r0, r1 := implSat(e0, []string{q}), implSat(e1, []string{q}); r0.String() != r1.String() {
+							fail(failure{Stream: "oracle", What: "letter case changed Satisfies for a suffixed id", Case: &kase{Expr: e1, ExprHex: hx(e1), Allowed: []string{q}, Extra: map[string]string{"list_spelling_expr": e0, "list_spelling_allowed": hxl([]string{q})}}, Impl: r1.String(), Expected: r0.String()})
+							break
+						}
+					}
+				}
+			}
+		}
+		// chains of SHORT ids with a rewritten -or-later term among them, every id re-cased at random: anything the scanner
+		// remembers about the text (positions, a folded copy) goes stale at the rewrite; results must equal the canonical text's
+		var short []string
+		for _, id := range tblActive {
+			if len(id) <= 5 && !strings.HasSuffix(id, "+") {
+				short = append(short, id)
+			}
+		}
+		rewr := []string{"Apache-2.0-or-later", "MIT-or-later", "ISC-or-later+", "Zlib-or-later", "MPL-2.0-or-later+", "BSD-3-Clause-or-later"}
+		for i := 0; i < scale(3000, 40000) && len(short) > 3; i++ {
+			n := 3 + rng.Intn(5)
+			can := make([]string, n)
+			mut := make([]string, n)
+			rw := 1 + rng.Intn(n-1)
+			for j := range can {
+				x := pick(short)
+				if j == rw || rng.Intn(6) == 0 {
+					x = pick(rewr)
+				}
+				can[j] = x
+				mut[j] = x
+				if rng.Intn(3) != 0 {
+					mut[j] = caseMut(x, rng.Intn(3))
+					if strings.Contains(x, "-or-later") { // keep the suffix as typed: its case is not under test here
+						b := strings.SplitN(x, "-or-later", 2)
+						mut[j] = caseMut(b[0], rng.Intn(3)) + "-or-later" + b[1]
+					}
+				}
+			}
+			var e0, e1 string
+			for j := range can {
+				if j > 0 {
+					op := []string{" AND ", " OR "}[rng.Intn(2)]
+					e0 += op
+					e1 += op
+				}
+				e0 += can[j]
+				e1 += mut[j]
+			}
+			res.Evaluations++
+			count("recased_chains")
+			x0, x1 := implExt(e0), implExt(e1)
+			if x0.String() != x1.String() {
+				fail(failure{Stream: "oracle", What: "ExtractLicenses depends on letter case (chain of short ids around a rewritten -or-later term)", Case: &kase{Expr: e1, ExprHex: hx(e1), Extra: map[string]string{"list_spelling": e0}}, Impl: x1.String(), Expected: x0.String()})
+				break
+			}
+			l := []string{can[0], can[n-1], can[n/2]}
+			for j := range l {
+				l[j] = strings.TrimSuffix(strings.TrimSuffix(l[j], "+"), "-or-later")
+			}
+			if r0, r1 := implSat(e0, l), implSat(e1, l); r0.String() != r1.String() {
+				fail(failure{Stream: "oracle", What: "letter case changed Satisfies (chain of short ids around a rewritten -or-later term)", Case: &kase{Expr: e1, ExprHex: hx(e1), Allowed: l, Extra: map[string]string{"list_spelling_expr": e0, "list_spelling_allowed": hxl(l)}}, Impl: r1.String(), Expected: r0.String()})
+				break
+			}
+		}
 		sample(map[string]interface{}{"id": "Apache-2.0", "variants": variants("Apache-2.0")})
 		res.Exhaustive = true
 	}
 	replays["C09"] = func(k *kase) *failure {
+		if ls := k.Extra["list_spelling"]; ls != "" && !implValid(ls) {
+			if implValid(k.Expr) {
+				return &failure{Stream: "oracle", What: "a case variant is valid although the list spelling is not", Case: k, Impl: "valid", Expected: "invalid"}
+			}
+			return nil
+		}
 		if !implValid(k.Expr) {
 			return &failure{Stream: "oracle", What: "case variant rejected", Case: k, Impl: "invalid", Expected: "valid"}
 		}
